@@ -45,18 +45,21 @@ theorem rebuild_steps {actors heads : List Bytes} {changes : List ChangeMeta} {r
       finishChanges actors st2.1 ((List.range changes.length).zip changes)
         (List.replicate actors.length 0) (List.replicate actors.length 0) [] = .ok built ∧
       sortHashes (headsOf (built.map (·.c))) = heads ∧ markOrderOk rows [] = true ∧ fail = none := by
-  unfold rebuild at h
-  split at h
-  · cases h
-  · cases h
-  · rename_i st1 h1
-    split at h
-    · cases h
-    · cases h
-    · split at h
-      · cases h
-      · cases h
-      · rename_i st2 h2
+  simp only [rebuild] at h
+  cases h1 : placeAll (emitRows rows ⟨none, []⟩).1 (mkBuilders changes, 0) with
+  | err e => simp only [h1] at h; cases h
+  | panic p => simp only [h1] at h; cases h
+  | ok st1 =>
+    simp only [h1] at h
+    cases fail with
+    | some f => cases f <;> simp only [] at h <;> cases h
+    | none =>
+      simp only [] at h
+      cases h2 : placeAll (flushOps (emitRows rows ⟨none, []⟩).2) st1 with
+      | err e => simp only [h2] at h; cases h
+      | panic p => simp only [h2] at h; cases h
+      | ok st2 =>
+        simp only [h2] at h
         split at h
         · cases h
         · rename_i hu
@@ -70,7 +73,7 @@ theorem rebuild_steps {actors heads : List Bytes} {changes : List ChangeMeta} {r
               · cases h
               · cases h
                 rename_i hm hh
-                exact ⟨st1, st2, h1, h2, by omega, hf, by simpa using hh, by simpa using hm, rfl⟩
+                exact ⟨st1, st2, rfl, h2, by omega, hf, by simpa using hh, by simpa using hm, rfl⟩
 
 /-- **what `Document::reconstruct` has verified when it accepts**: the stored heads are the heads of
     the rebuilt changes (sorted), every change row was rebuilt, every mark end follows its begin -/
